@@ -102,7 +102,7 @@ def event_arms(b, enum_adt):
     by_target = {}
     for name, tb in targets:
         by_target.setdefault(tb, []).append(name)
-    reach = {tb: b.reach([tb]) for tb in by_target}
+    reach = {tb: b.reach([tb], avoid=[best]) for tb in by_target}
     for tb, names in by_target.items():
         others = set()
         for t2, r in reach.items():
